@@ -32,6 +32,7 @@ OBLIGATIONS = [
     "VgiVerif.C07.C07_kind",
     "VgiVerif.C07.C07_client_kind",
     "VgiVerif.C07.C07_http",
+    "VgiVerif.C07.C07_unary_body_faithful",
     "VgiVerif.C07.setHttpStatus_spec",
     "VgiVerif.C07.http_shapes_recognised",
     "VgiVerif.C07.errEv_justified",
@@ -55,7 +56,8 @@ RULE = (
     "exception = (class from built-ins / user classes / typed framework errors / classes whose error_kind is not a str or set on "
     "the instance, message from {empty, ascii, unicode, newlines, NULs, 100 kB, random}); codec cases add chaining (cause / "
     "context), server id, request id; peer cases enumerate kind placement x extra shape; site cases place one exception at each of "
-    "8 dispatch sites of a generated service and run it over {pipe, unix, tcp, shm, http(no cap), http(cap, zstd), http(gzip)}; a "
+    "8 dispatch sites of a generated service and run it over {pipe, unix, tcp, shm, http(no cap), http(cap 1 MB, zstd), http(gzip), http(cap 64 KiB), http(cap 1500 B)}, with texts padded "
+    "below / above the caps (a round with every text > 64 KiB runs first); a "
     "case is non-trivial when an exception crosses the wire; distinct by canonical JSON"
 )
 MANIFEST = {
@@ -469,7 +471,7 @@ def install_recorder() -> None:
                 if e is not None:
                     err = e
         REC.append({"path": url, "status": r.status_code, "marker": hdr.get("x-vgi-rpc-error"), "error": err is not None,
-                    "etype": err["type"] if err else None})
+                    "etype": err["type"] if err else None, "emsg": (err["message"][:120] if err else None)})
         return r
 
     T._SyncTestClient.post = post  # type: ignore[method-assign]
@@ -483,7 +485,7 @@ def L(t: str, lvl: str = "INFO", **x: str) -> dict[str, Any]:
     return {"level": lvl, "text": t, "extra": x}
 
 
-def site_service(excs: list[dict[str, Any]]) -> tuple[dict[str, Any], list[list[Any]], list[tuple[str, str, int]]]:
+def site_service(excs: list[dict[str, Any]], tight_cap: bool = False) -> tuple[dict[str, Any], list[list[Any]], list[tuple[str, str, int]]]:
     """One service with an exception at each of 8 dispatch sites; returns (descriptor, script, [(site, method, script index of the op that must see the error on sockets)])."""
     E = lambda i: {"raise": excs[i % len(excs)]}  # noqa: E731
     em = lambda i: {"logs": [], "act": {"emit": {"id": i}}, "post": []}  # noqa: E731
@@ -513,7 +515,38 @@ def site_service(excs: list[dict[str, Any]]) -> tuple[dict[str, Any], list[list[
     sites = [("unary", "u_plain", 0), ("unary-after-logging", "u_logged", 1), ("init", "s_init", 2), ("init-header", "s_init_h", 3),
              ("first-step", "p_first", 4), ("later-step-after-logging", "p_later", 5), ("exchange-first", "x_first", 6),
              ("exchange-later-after-logging", "x_later", 7)]
+    if tight_cap:
+        # under a cap smaller than the error payloads, every response that is SUPPOSED to succeed must still fit: x_later's
+        # first exchange returns a state token that embeds the step script (and so the exception text) — a cap overshoot of
+        # that successful response is an error by design (C16), not a C07 matter.  All other sites keep only small successes.
+        d["methods"] = [m for m in d["methods"] if m["name"] != "x_later"]
+        cut = s.index(["open", "x_later", 1])
+        s = s[:cut] + s[cut + 4:]
+        sites = [x for x in sites if x[1] != "x_later"]
     return d, s, [(a, b, c) for a, b, c in sites]
+
+
+def rle(t: str) -> list[list[Any]]:
+    out: list[list[Any]] = []
+    for ch in t:
+        if out and out[-1][0] == ch:
+            out[-1][1] += 1
+        else:
+            out.append([ch, 1])
+    return out
+
+
+def pack_exc(e: dict[str, Any]) -> dict[str, Any]:
+    """replayable, compact form of an exception descriptor (long texts are runs of few characters)"""
+    return e if len(e["arg"]) < 300 else {"cls": e["cls"], "arg_rle": rle(e["arg"])}
+
+
+def unpack_exc(e: dict[str, Any]) -> dict[str, Any]:
+    return e if "arg" in e else {"cls": e["cls"], "arg": "".join(ch * n for ch, n in e["arg_rle"])}
+
+
+def is_cap_error(etype: Any, emsg: Any) -> bool:
+    return etype == "RuntimeError" and isinstance(emsg, str) and ("exceeds max_response_bytes" in emsg or "exceeds max_externalized_response_bytes" in emsg)
 
 
 def http_site(path: str, by_name: dict[str, Any]) -> str:
@@ -529,12 +562,13 @@ def http_site(path: str, by_name: dict[str, Any]) -> str:
 
 
 def site_case(ctx: Any, excs: list[dict[str, Any]], cfg: Config) -> None:
-    d, script, sites = site_service(excs)
+    tight = cfg.kind == "http" and cfg.cap is not None and cfg.cap < 1_000_000
+    d, script, sites = site_service(excs, tight)
     by_name = {m["name"]: m for m in d["methods"]}
     REC.clear()
     r = svcgen.run_script(d, script, cfg, deadline=60)
     rec = list(REC)
-    short = [e if len(e["arg"]) < 300 else {"cls": e["cls"], "arg": e["arg"][:30] + "…", "arg_len": len(e["arg"])} for e in excs]
+    short = [pack_exc(e) for e in excs]
     base = {"layer": "sites", "excs": short, "transport": cfg.label()}
     if r["hung"] or len(r["trace"]) != len(script):
         ctx.case(base, tags=(f"t:{cfg.label()}",))
@@ -566,6 +600,10 @@ def site_case(ctx: Any, excs: list[dict[str, Any]], cfg: Config) -> None:
                      f"{cfg.label()}: {v['type']} raised at {site} never reached the client: {json.dumps(per[mname])[:300]}")
             continue
         _, typ, msg, kind = errs[0]
+        if is_cap_error(typ, msg) and not is_cap_error(v["type"], f"{v['type']}: {v['text']}"):
+            ctx.fail(case, f"C07:impl-error-replaced-by-cap-error:{site}",
+                     f"{cfg.label()}: {v['type']} (text len {len(v['text'])}) raised at {site} reached the client as {msg[:100]!r}")
+            continue
         if typ != v["type"]:
             ctx.fail(case, f"C07:type-not-class-name:{site}", f"{cfg.label()}: error_type {typ!r} != {v['type']!r}")
         if v["text"] not in msg:
@@ -595,6 +633,17 @@ def site_case(ctx: Any, excs: list[dict[str, Any]], cfg: Config) -> None:
                     ctx.fail(case, f"C07:http-error-unmarked:{site}", f"response carrying {resp['etype']} has status {resp['status']} marker {resp['marker']!r}")
             elif marker:
                 ctx.fail(case, f"C07:http-success-marked:{site}", f"successful response carries X-VGI-RPC-Error={resp['marker']!r}")
+            if ctx.driver is not None and site == "unary" and cfg.cap is not None:
+                meth = by_name[[p for p in path.split("/") if p][0]]
+                raised = "raise" in meth["out"]
+                exp_cap = raised and is_cap_error(svcgen.exc_view(meth["out"]["raise"])["type"], "RuntimeError: " + svcgen.exc_view(meth["out"]["raise"])["text"])
+                seen = "result" if not resp["error"] else ("cap_error" if is_cap_error(resp["etype"], resp["emsg"]) and not exp_cap else "impl_error")
+                # over_cap is not observable once the body was replaced: the model's answer must not depend on it when raised
+                for oc in ((True, False) if raised else (False,)):
+                    mb = ctx.driver.call("C07.unary_body", {"raised": raised, "over_cap": oc})
+                    if mb != seen:
+                        ctx.mismatch(case, {"unary_body": mb, "over_cap": oc}, {"unary_body": seen, "etype": resp["etype"], "emsg": resp["emsg"]},
+                                     "unary HTTP body under a response cap vs Lean C07.unaryBody")
             if ctx.driver is not None:
                 m = ctx.driver.call("C07.http", {"site": site, "raised": bool(resp["error"])})
                 if (m["status"], m["marker"]) != (resp["status"], marker) or (marker and resp["marker"] != m["value"]):
@@ -604,8 +653,10 @@ def site_case(ctx: Any, excs: list[dict[str, Any]], cfg: Config) -> None:
 
 
 def configs() -> list[Config]:
+    # caps: none / far above every payload / 64 KiB (below a 100 kB exception text) / 1500 B (below EVERY error payload: an
+    # EXCEPTION batch with its traceback is > 1.5 kB, the small successful responses of the site service are < 1.2 kB)
     return [Config("pipe"), Config("unix"), Config("tcp"), Config("shm"), Config("http", None, None), Config("http", 1_000_000, "zstd"),
-            Config("http", None, "gzip")]
+            Config("http", None, "gzip"), Config("http", 65_536, None), Config("http", 1_500, None)]
 
 
 # ------------------------------------------------------------------------------------------ run
@@ -619,6 +670,17 @@ def corpus_excs() -> list[list[dict[str, Any]]]:
         [X("KeyError", "k"), X("BytesKindError", "b"), X("NoneKindError", ""), X("InstanceKindError", "inst"), X("SubKinded", "sub"),
          X("UnicodeNameÉrror", "ünï"), X("EmptyKindError", "e"), X("ZeroDivisionError", "division by zero")],
     ]
+
+
+def long_excs() -> list[dict[str, Any]]:
+    """every site raises with a text longer than the 64 KiB cap (and one far longer)"""
+    names = ["ValueError", "KindedError", "SessionLostError", "CustomError", "OddKindError", "MethodNotImplementedError", "KeyError", "RuntimeError"]
+    return [{"cls": c, "arg": ("long-%d " % i) + "y" * (70_000 if i else 200_000)} for i, c in enumerate(names)]
+
+
+def stretch(rng: Any, excs: list[dict[str, Any]]) -> list[dict[str, Any]]:
+    """the size dimension: pad texts to just below / above the configured caps"""
+    return [{"cls": e["cls"], "arg": e["arg"] + "z" * rng.choice([0, 0, 900, 2_000, 40_000, 70_000])} for e in excs]
 
 
 def run(ctx: Any) -> None:
@@ -642,11 +704,13 @@ def run(ctx: Any) -> None:
     for (md, tag), mod in zip(pcs, mods):
         peer_error_case(ctx, md, tag, mod)
     # 3. sites x transports
-    for excs in corpus_excs():
+    for excs in corpus_excs() + [long_excs()]:
         for cfg in configs():
             site_case(ctx, excs, cfg)
-    for _ in range(ctx.budget(10, 220)):
+    for i in range(ctx.budget(8, 220)):
         excs = [gen_exc(rng) for _ in range(8)]
+        if i % 2:
+            excs = stretch(rng, excs)
         for cfg in configs():
             site_case(ctx, excs, cfg)
     ctx.note("exception_classes", class_names())
@@ -663,7 +727,7 @@ def replay(ctx: Any, case: dict[str, Any]) -> None:
         md = {k.encode(): bytes.fromhex(v) for k, v in case["md"].items() if not v.endswith("…")}
         peer_error_case(ctx, md, "replay")
     elif layer == "sites":
-        excs = [e for e in case["excs"] if "arg_len" not in e] or corpus_excs()[0]
+        excs = [unpack_exc(e) for e in case["excs"] if "arg_len" not in e] or corpus_excs()[0]
         while len(excs) < 8:
             excs.append(excs[-1])
         for cfg in configs():
